@@ -115,6 +115,28 @@ func applyEdit(t fsmodel.Tree, e Edit) fsmodel.Tree {
 			return nil
 		}
 		t = removeSub(t, e.Path)
+	case "delete-with-prefix-siblings":
+		// a directory goes away together with the neighbours whose names merely start with its name
+		if n == nil || n.Kind != fsmodel.Dir {
+			return nil
+		}
+		found := false
+		for _, m := range t.Clone() {
+			if m.Path != e.Path && parentOf(m.Path) == parentOf(e.Path) && strings.HasPrefix(m.Path, e.Path) {
+				t = removeSub(t, m.Path)
+				found = true
+			}
+		}
+		if !found {
+			return nil
+		}
+		t = removeSub(t, e.Path)
+	case "unlink-rewrite":
+		// editor-style replacement of one name of a hard-link group: own inode, new bytes
+		if n == nil || n.HL == 0 {
+			return nil
+		}
+		n.HL, n.Data, n.Mtime = 0, fsmodel.Content(int(n.Mtime%997)+800, len(n.Data)+2), n.Mtime+1000
 	case "add-file":
 		if n != nil || !parentOK(e.Path) {
 			return nil
@@ -248,7 +270,7 @@ func applyEdit(t fsmodel.Tree, e Edit) fsmodel.Tree {
 }
 
 var editNames = []string{"rewrite-same-size", "rewrite-other-size", "rewrite-big", "touch", "chmod", "chmod-suid", "chown", "chgrp", "delete",
-	"add-file", "add-dir", "rename", "to-dir", "to-file", "to-symlink", "to-symlink-sibling", "retarget", "retarget-same-len", "link-to-prev", "unlink", "renumber", "to-fifo"}
+	"add-file", "add-dir", "rename", "to-dir", "to-file", "to-symlink", "to-symlink-sibling", "retarget", "retarget-same-len", "link-to-prev", "unlink", "renumber", "to-fifo", "delete-with-prefix-siblings", "unlink-rewrite"}
 
 // allEdits lists every edit applicable to the tree (at existing paths, and at
 // a few free names for additions).
@@ -308,6 +330,8 @@ func baseTrees() []fsmodel.Tree {
 	trees = append(trees, fsmodel.Tree{{Path: "g", Kind: fsmodel.Dir, Perm: 02775, GID: 4242, Mtime: fsmodel.T0 + 1}, f("g/f", 31, 5, 2), d("g/sub", 3), f("g/sub/x", 32, 4, 4), f("top", 33, 3, 5)})
 	// a directory that is a symlink to a sibling directory (a relocated directory), both with children
 	trees = append(trees, fsmodel.Tree{{Path: "cur", Kind: fsmodel.Symlink, Perm: 0777, Mtime: fsmodel.T0 + 1, Link: "real"}, d("real", 2), f("real/x", 34, 5, 3), f("z", 35, 2, 4)})
+	// a directory and neighbours whose names merely start with its name, with and without entries in between
+	trees = append(trees, fsmodel.Tree{d("build", 1), f("build/out", 41, 4, 2), f("build.log", 42, 5, 3), f("build_id", 43, 6, 4), d("builds", 5), f("builds/old", 44, 7, 6), f("zz", 45, 2, 7)})
 	trees[3][0].HL = 1
 	for i := range trees {
 		trees[i].Sort()
